@@ -54,19 +54,39 @@ def run(prog: Program, rep: Report, tier: str) -> None:
         magic_alt = ("cmp", "==", magic_want[3], magic_want[2])
         magics = [x for x in conjs if x in (magic_want, magic_alt)]
         others = [x for x in conjs if x not in (magic_want, magic_alt)]
-        rep.check(len(magics) == 1, "R6.1", "magic", where, f"gate is {T.show(gate_cond)[:300]}: it must require hex(m)[0:4] == '{spec['gate']['magic']}'", key="R6.1|magic")
-        lens: Set[Any] = set()
-        ok_len = len(others) == 1
-        if ok_len:
-            for d in flatten(others[0], "or"):
-                if d[0] == "cmp" and d[1] == "==" and ("len", MSG) in (d[2], d[3]) and T.is_c(d[3] if d[2] == ("len", MSG) else d[2]):
-                    lens.add((d[3] if d[2] == ("len", MSG) else d[2])[1])
-                elif d[0] == "cmp" and d[1] == "in" and d[2] == ("len", MSG) and d[3][0] == "tuple":
-                    lens |= {x[1] for x in d[3][1]}
-                else:
-                    ok_len = False
-        rep.check(ok_len and lens == set(spec["gate"]["lengths"]), "R6.1", "lengths", where,
-                  f"gate is {T.show(gate_cond)[:300]}: accepted lengths {sorted(lens) if ok_len else '?'}; it must accept exactly {sorted(spec['gate']['lengths'])} and nothing else", key="R6.1|lengths")
+        def is_len_test(d: Any) -> bool:
+            return (isinstance(d, tuple) and d[:1] == ("cmp",) and ((d[1] == "==" and ("len", MSG) in (d[2], d[3]) and T.is_c(d[3] if d[2] == ("len", MSG) else d[2]))
+                                                                    or (d[1] == "in" and d[2] == ("len", MSG) and isinstance(d[3], tuple) and d[3][:1] == ("tuple",) and all(T.is_c(x) for x in d[3][1]))))
+
+        def is_head_test(d: Any) -> bool:
+            # a comparison of leading hex digits of the message with a literal
+            if not (isinstance(d, tuple) and d[:1] == ("cmp",) and d[1] in ("==", "!=")):
+                return False
+            for x, y in ((d[2], d[3]), (d[3], d[2])):
+                if T.is_seq(x) and len(x[2]) == 1 and x[2][0][:2] == ("hx", MSG) and x[2][0][2] == 0 and T.is_seq(y) and all(a[0] == "L" for a in y[2]):
+                    return True
+            return False
+
+        # recognised skeleton = a conjunction of comparisons of the length / of the leading digits with constants; then
+        # every deviation is a violation.  Any other conjunct makes the gate a form this rule does not compare.
+        foreign_conj = [x for x in conjs if not is_head_test(x) and not all(is_len_test(d) for d in flatten(x, "or"))]
+        if foreign_conj:
+            rep.undecided("R6.1", "gate normal form", where, f"gate is {T.show(gate_cond)[:300]}: the conjunct {T.show(foreign_conj[0])[:120]} is neither a test of the length nor of the leading bytes; "
+                                                              f"whether the gate equals hex(m)[0:4] == 'fef0' and len(m) in {{165,168,159}} is not decided by comparing normal forms")
+        else:
+            rep.check(len(magics) == 1, "R6.1", "magic", where, f"gate is {T.show(gate_cond)[:300]}: it must require hex(m)[0:4] == '{spec['gate']['magic']}'", key="R6.1|magic")
+            lens: Set[Any] = set()
+            ok_len = len(others) == 1
+            if ok_len:
+                for d in flatten(others[0], "or"):
+                    if d[0] == "cmp" and d[1] == "==" and ("len", MSG) in (d[2], d[3]) and T.is_c(d[3] if d[2] == ("len", MSG) else d[2]):
+                        lens.add((d[3] if d[2] == ("len", MSG) else d[2])[1])
+                    elif d[0] == "cmp" and d[1] == "in" and d[2] == ("len", MSG) and d[3][0] == "tuple":
+                        lens |= {x[1] for x in d[3][1]}
+                    else:
+                        ok_len = False
+            rep.check(ok_len and lens == set(spec["gate"]["lengths"]), "R6.1", "lengths", where,
+                      f"gate is {T.show(gate_cond)[:300]}: accepted lengths {sorted(lens) if ok_len else '?'}; it must accept exactly {sorted(spec['gate']['lengths'])} and nothing else", key="R6.1|lengths")
         rep.sample({"gate_normal_form": T.show(gate_cond)[:400]})
 
     # ---- R6.2
